@@ -654,6 +654,13 @@ pub fn generate(ctx: &Ctx, s: &mut Sink) {
                    ("ASCIIHexDecode", b"41\x0042>"), ("ASCIIHexDecode", b"4>41"), ("ASCIIHexDecode", b"4\x0b1>"), ("ASCII85Decode", b"87c\x00URD~>")] {
         emit_case(s, &json!({"filters": [f], "fname": true, "dp": null, "data": hex(d), "lims": [0, 1, 2, 3, 4, 5, 8]}), "witness");
     }
+    // TIFF predictor 2 with a row size far beyond the data (found by the thorough tier: /Colors 2^32+12 with empty data
+    // made the MODEL convert the row size to a unary nat; the implementation returns the empty output / a size error)
+    for (co, cl) in [(4294967308i64, 1i64), (1, 4294967308), (1 << 40, 3)] {
+        for d in [&b""[..], b"41>", b"4142434445464748>"] {
+            emit_case(s, &json!({"filters": ["ASCIIHexDecode"], "fname": true, "dp": {"pr": 2, "co": co, "cl": cl, "bp": 16, "ec": 1}, "data": hex(d), "lims": [0, 1, 4]}), "witness");
+        }
+    }
     for cl in [-1i64, 0, i64::MIN, 1 << 62] {
         let e = enc_flate(&[0, 1, 2, 3], 6);
         emit_case(s, &json!({"filters": ["FlateDecode"], "fname": true, "dp": {"pr": 12, "cl": cl, "co": 3}, "data": hex(&e), "lims": [0, 3, 4, 5]}), "witness");
